@@ -15,8 +15,8 @@
       acked        STREAM frames whose OnAcked was called
       emitted      every STREAM frame ever returned by popStreamFrame, in order
       emittedNew   those of them that carried new data (not retransmissions)
-      late         the reliable size was raised on an already reset stream: enableResetStreamAt()
-                   going from false to true after CancelWrite/STOP_SENDING
+      late         (historic) the reliable size was raised on an already reset stream; since the repairs of
+                   SetReliableBoundary and enableResetStreamAt no op sets it any more (lemma late_never)
       panicked     the code would have panicked ("numOutStandingFrames negative") *)
 From Coq Require Import List ZArith Bool Lia.
 From V Require Import Gen.Params Lib.Hex Wire.Varint.
@@ -411,8 +411,10 @@ Definition do_rel (s : state) : state * out :=
   if isSome (resetErr s) then (s, out0)
   else (set_reliableSize (writeOffset s + nfLen s) s, out0).
 
+(* enableResetStreamAt is a no-op once the stream was reset (repair C01-enable-reset-stream-at-after-reset):
+   the ghost flag [late] can therefore never become true *)
 Definition do_enable (s : state) : state * out :=
-  (set_supportsRSA true (set_late (late s || (isSome (resetErr s) && negb (supportsRSA s))) s), out0).
+  if isSome (resetErr s) then (s, out0) else (set_supportsRSA true s, out0).
 
 Definition do_shutdown (s : state) : state * out :=
   let s1 := if negb (shutdown s) && negb (finishedWriting s)
